@@ -3,9 +3,8 @@
    Model: Model/NdVisit.v  nd_visit, driven by a choice script (one number per random.randrange / random.shuffle).
 
    C17_valid and C17_exhaustive below are the general theorems for the traversal: every value, every limit, every
-   script / every valid order.  Still NOT proved in general: the statement for whole queries (wildcard and filter
-   selectors shuffle object members too; decided by the correspondence: the nondeterministic result of generated
-   queries is a permutation of the deterministic one). *)
+   script / every valid order.  For whole queries (wildcard and filter selectors shuffle object members too):
+   Spec/NondetQ.v nd_permitted, Model/NdEval.v m_find_nd; C17_query_valid at the end of this file. *)
 From JP Require Import Base.Json Model.NdVisit Spec.Sem Spec.Nondet Proofs.NdSpec Proofs.NdSim.
 
 (* Whatever the random choices (one script number per random.randrange / random.shuffle call, any numbers, any length),
@@ -106,3 +105,26 @@ Theorem C17_valid_partial :
   forallb (fun s => match nd_visit 100 s ([], doc17) with Ok ns => valid_order ([], doc17) (map fst ns) | _ => false end) (scripts 6) = true.
 Proof. vm_compute. reflexivity. Qed.
 Print Assumptions C17_valid_partial.
+
+(* ---- whole queries ----
+   find() with env.nondeterministic = True (Model/NdEval.v: the selectors' own shuffles of object members, the traversal of every descendant
+   segment from whatever node it starts at, several segments), for every supply of choice scripts: whatever it returns is a nodelist RFC 9535
+   permits for the query (Spec/NondetQ.v nd_permitted: per input node in turn, per selector in turn; the children of an object in any
+   order, those of an array in index order; the descendants in a valid order) - for every well-typed query, nested filters included. *)
+From JP Require Import Model.NdEval Spec.NondetQ Spec.Types Proofs.NdQuery.
+Theorem C17_query_valid : forall cfg, reg_ok (reg cfg) = true -> (1 <= max_depth cfg)%nat ->
+  forall sup q v r, wt_query (reg cfg) q = true -> good cfg v ->
+  m_find_nd cfg sup q v = Ok r -> nd_permitted (reg cfg) (rx cfg) q v r.
+Proof. exact nd_query_valid. Qed.
+Print Assumptions C17_query_valid.
+(* the traversal started at any node of the value, not only its root *)
+Theorem C17_valid_at : forall limit script loc v ns, wf_json v = true -> nd_visit limit script (loc, v) = Ok ns ->
+  valid_order (loc, v) (map fst ns) = true /\ Permutation ns (descendants loc v).
+Proof. exact nd_visit_valid_at. Qed.
+Print Assumptions C17_valid_at.
+(* ... and a permitted nodelist has exactly the nodes of the deterministic result (the RFC nodelist of C01/C02), with the same multiplicities *)
+Theorem C17_query_same_nodes : forall cfg, reg_ok (reg cfg) = true -> (1 <= max_depth cfg)%nat ->
+  forall sup q v r, wt_query (reg cfg) q = true -> good cfg v ->
+  m_find_nd cfg sup q v = Ok r -> Permutation r (sem (reg cfg) (rx cfg) q v).
+Proof. intros cfg Hr HN sup q v r Hwt Hg E. apply nd_permitted_perm. exact (nd_query_valid cfg Hr HN sup q v r Hwt Hg E). Qed.
+Print Assumptions C17_query_same_nodes.
